@@ -24,36 +24,9 @@ func c07sched(c *core.Ctx) {
 		name string
 		body func()
 	}
-	// reactor reads conn until a packet of type ack has arrived, then calls then();
-	// keeps reading; everything received is appended to *got with the index of the ack.
-	type rx struct {
-		pkts  []*refcodec.Packet
-		ackAt int
-	}
 	reactor := func(s *tdConn, ack byte, then func()) *rx {
-		r := &rx{ackAt: -1}
 		s.noRead = true // the reactor thread owns the reading side from now on
-		vsched.Go("client-"+s.name, func() {
-			var buf []byte
-			b := make([]byte, 4096)
-			for {
-				n, err := s.rc.Conn.Read(b)
-				buf = append(buf, b[:n]...)
-				pkts, rest, perr := refcodec.Split(buf)
-				buf = append([]byte(nil), rest...)
-				for _, p := range pkts {
-					r.pkts = append(r.pkts, p)
-					if p.Type == ack && r.ackAt < 0 {
-						r.ackAt = len(r.pkts) - 1
-						then()
-					}
-				}
-				if err != nil || perr != nil {
-					return
-				}
-			}
-		})
-		return r
+		return startReactor(s.name, s.rc, func(p *refcodec.Packet) bool { return p.Type == ack }, then)
 	}
 	probe := func(p *tdConn, topic string) func() {
 		return func() {
@@ -156,4 +129,43 @@ func c07sched(c *core.Ctx) {
 			c.Rep.Sample(map[string]interface{}{"scenario": sc.name, "deviations": dev, "executions": st.Executions, "states": st.States})
 		}
 	}
+}
+
+// rx is what a reactive client thread has received; ackAt is the index of the
+// first packet that satisfied its trigger (-1: none yet).
+type rx struct {
+	pkts  []*refcodec.Packet
+	ackAt int
+}
+
+// startReactor starts a client thread that owns the reading side of rc: it
+// reads (blocking, under the scheduler) and calls then() the moment the first
+// packet satisfying trigger has arrived, then keeps reading.  QoS 1 deliveries
+// are acknowledged.
+func startReactor(name string, rc *RawClient, trigger func(*refcodec.Packet) bool, then func()) *rx {
+	r := &rx{ackAt: -1}
+	vsched.Go("client-"+name, func() {
+		var buf []byte
+		b := make([]byte, 4096)
+		for {
+			n, err := rc.Conn.Read(b)
+			buf = append(buf, b[:n]...)
+			pkts, rest, perr := refcodec.Split(buf)
+			buf = append([]byte(nil), rest...)
+			for _, p := range pkts {
+				r.pkts = append(r.pkts, p)
+				if p.Type == refcodec.PUBLISH && p.QoS == 1 {
+					rc.Conn.Write(refcodec.Encode(&refcodec.Packet{Type: refcodec.PUBACK, ID: p.ID}))
+				}
+				if r.ackAt < 0 && trigger(p) {
+					r.ackAt = len(r.pkts) - 1
+					then()
+				}
+			}
+			if err != nil || perr != nil {
+				return
+			}
+		}
+	})
+	return r
 }
